@@ -45,7 +45,7 @@ def jobs(tier, seed):
         c2 = CS.rand_contract(rng, i2, o2, alphabet, na=(0, 1), ng=(1, 2))
         overlap = "none"
         if ov:
-            overlap = rng.choice(["identical", "scaled", "implied", "none"])
+            overlap = rng.choice(["identical", "scaled", "implied", "none", "near"])
             t = B.rterm(rng, ov, alphabet)
             if overlap == "identical":
                 c1["g"].append(dict(t))
@@ -53,6 +53,14 @@ def jobs(tier, seed):
             elif overlap == "scaled":
                 c1["g"].append(dict(t))
                 c2["g"].append({k: 2 * v for k, v in t.items()})
+            elif overlap == "near":
+                # two different interface-level guarantees that agree up to the sixth digit of one coefficient
+                t = B.rterm(rng, i1 + o1[:0] if False else ov, alphabet)
+                t2 = dict(t)
+                k0 = sorted(t2)[0]
+                t2[k0] = t2[k0] * (1 + 8e-6)
+                c1["g"].append(dict(t))
+                c2["g"].append(t2)
             elif overlap == "implied":
                 c1["g"].append(dict(t))
                 c2["g"].append(dict(t))
